@@ -221,6 +221,25 @@ func (g *gen) build() {
 			g.h3(a, "GET", hk.Pick(rng, modes), rng.Bool())
 		}
 	}
+	// I. Response API cells (round 2), on all three protocols
+	for i, n := 0, r.Scale(240, 3000); i < n; i++ {
+		a := g.muxAresp(hk.Pick(rng, []int{0, 1, 17, 100, 255, 600}), rng.Intn(4))
+		a.Trailers, a.Interim = nil, nil
+		if rng.Chance(85) {
+			a.Code, a.Reason = 200, "OK"
+		}
+		var x *exch
+		switch i % 3 {
+		case 0:
+			o := &h1opts{Framing: hk.Pick(rng, []wire.Framing{wire.FrCL, wire.FrChunked, wire.FrClose})}
+			x = g.h1(a, o, "GET", "api", hk.Pick(rng, segKinds), false)
+		case 1:
+			x = g.h2(a, "GET", "api", hk.Pick(rng, segKinds), rng.Bool())
+		default:
+			x = g.h3(a, "GET", "api", rng.Bool())
+		}
+		x.API = genAPICfg(rng, len(x.expectedBody()))
+	}
 	// H. the same abstract response over all three protocols
 	for i, n := 0, r.Scale(120, 1500); i < n; i++ {
 		a := g.muxAresp(hk.Pick(rng, append(append([]int{}, smallLens...), 4096, 16385, 70000)), rng.Intn(8))
@@ -299,6 +318,18 @@ func runC02(r *hk.Run) {
 	crossOracle(r, g.xs)
 	bigN := map[string]int{}
 	for _, x := range g.xs {
+		if x.API != nil {
+			x.apiOracle(r)
+			r.Count("proto:" + x.Proto)
+			r.Count("mode:api")
+			r.Count("api:" + x.API.kind())
+			c := hk.Case{Desc: x.desc()}
+			if !x.s.Hung && x.s.Panic == "" && !x.s.NoResp {
+				c.Coq = x.coqAPICase()
+			}
+			r.Add(c, x.key(), true)
+			continue
+		}
 		x.oracle(r)
 		r.Count("proto:" + x.Proto)
 		r.Count("mode:" + x.Mode)
@@ -373,5 +404,8 @@ func (x *exch) desc() map[string]interface{} {
 	}
 	m["wire_head"] = string(head)
 	m["seen"] = x.s
+	if x.API != nil {
+		m["api_seen"] = x.as
+	}
 	return m
 }
